@@ -26,6 +26,7 @@ import (
 	"net/http"
 	"net/http/httptest"
 	"os"
+	"os/exec"
 	"reflect"
 	"runtime"
 	"sort"
@@ -86,6 +87,8 @@ type c9Case struct {
 	Workers  int    `json:"workers"`
 	Messages int    `json:"messages"`
 	Trials   int    `json:"trials"`
+	// startup
+	Startup []c9Startup `json:"startup"`
 	// stress
 	Goroutines int  `json:"goroutines"`
 	Rounds     int  `json:"rounds"`
@@ -153,6 +156,12 @@ type c9Result struct {
 	Panics      []string       `json:"panics"`
 	StressKind  string         `json:"stress_kind"`
 	Adds        int64          `json:"adds"`
+	// startup (child process)
+	ChildOK    bool           `json:"child_ok"`
+	ChildDone  bool           `json:"child_done"`
+	ChildLast  int            `json:"child_last"`
+	ChildPanic string         `json:"child_panic"`
+	StartupRes []c9StartupRes `json:"startup_res"`
 	// locktrace / watchdog
 	Deadlock     bool   `json:"deadlock"`
 	DepthAtScan  int    `json:"depth_at_scan"`
@@ -394,7 +403,19 @@ func c9RunSched(c c9Case) (res c9Result) {
 	stepNo := 0
 	recording := true
 	var evmu sync.Mutex
+	var draining int32
+	// A publication to the detector is itself a schedule point when it happens outside the
+	// registration lock: other threads can then run between "valid" and "announced".  (With the
+	// lock held nobody else can touch the table, so there is nothing to interleave and parking
+	// would only block the others.)  Only one thread runs at a time here, so a write-locked mutex
+	// means the publishing thread holds it.
+	publishGate := func() {
+		if atomic.LoadInt32(&draining) == 0 && c9ReaderCount(&rm.registeredDecoys.m) >= 0 {
+			ctl.park("publish")
+		}
+	}
 	rm.registeredDecoys.registerForDetector = func(d *DecoyRegistration) {
+		publishGate()
 		evmu.Lock()
 		defer evmu.Unlock()
 		if !recording {
@@ -407,6 +428,7 @@ func c9RunSched(c c9Case) (res c9Result) {
 		res.Events = append(res.Events, c9Event{Step: stepNo, Kind: "announce", Obj: oi, Covert: d.Covert})
 	}
 	rm.registeredDecoys.updateInDetector = func(d *DecoyRegistration) {
+		publishGate()
 		evmu.Lock()
 		defer evmu.Unlock()
 		if !recording {
@@ -585,6 +607,7 @@ func c9RunSched(c c9Case) (res c9Result) {
 	evmu.Lock()
 	recording = false
 	evmu.Unlock()
+	atomic.StoreInt32(&draining, 1)
 	verifhook.Set(nil)
 	tester.f = func(string, uint16) (bool, error) { return true, fmt.Errorf("drained") }
 	for _, t := range ctl.thr {
@@ -878,6 +901,134 @@ func c9RunLocktrace(c c9Case) (res c9Result) {
 	return res
 }
 
+
+// ---------------------------------------------------------------- startup mode (stop request during start-up)
+
+type c9Startup struct {
+	Workers int    `json:"workers"`
+	Timing  string `json:"timing"` // before | after | yield
+	Yields  int    `json:"yields"`
+	Busy    bool   `json:"busy"`
+	Trials  int    `json:"trials"`
+}
+
+type c9StartupRes struct {
+	Returned  int `json:"returned"`
+	MaxAlive  int `json:"max_alive"` // ingest workers still alive when HandleRegUpdates had returned
+	NotReturn int `json:"not_returned"`
+}
+
+func c9CountWorkers() int {
+	buf := make([]byte, 4<<20)
+	n := runtime.Stack(buf, true)
+	return strings.Count(string(buf[:n]), ").startIngestThread(")
+}
+
+// Runs in a child process: a worker that panics after HandleRegUpdates has returned takes the
+// process down, which the parent observes.
+func TestVerifC09StartupChild(t *testing.T) {
+	raw := os.Getenv("VERIF_C09_CHILD")
+	if raw == "" {
+		t.Skip("not a child")
+	}
+	var scs []c9Startup
+	if err := json.Unmarshal([]byte(raw), &scs); err != nil {
+		t.Fatal(err)
+	}
+	os.Setenv("PHANTOM_SUBNET_LOCATION", "./test/phantom_subnets.toml")
+	out := make([]c9StartupRes, len(scs))
+	for i, sc := range scs {
+		fmt.Printf("\nC9SCENARIO %d\n", i)
+		os.Stdout.Sync()
+		for tr := 0; tr < sc.Trials; tr++ {
+			rm := NewRegistrationManager(&RegConfig{EnableIPv4: true, EnableIPv6: true, IngestWorkerCount: sc.Workers})
+			if rm == nil {
+				t.Fatal("no manager")
+			}
+			_ = rm.AddTransport(pb.TransportType(0), &mockTransport{})
+			rm.LivenessTester = &c9Tester{f: func(string, uint16) (bool, error) { return true, fmt.Errorf("live (scripted)") }}
+			rm.registeredDecoys.registerForDetector = func(*DecoyRegistration) {}
+			rm.registeredDecoys.updateInDetector = func(*DecoyRegistration) {}
+			rm.Logger = log.New(io.Discard, "[C09] ", golog.Ldate)
+			ctx, cancel := context.WithCancel(context.Background())
+			regChan := make(chan interface{}, 64)
+			if sc.Busy {
+				for j := 0; j < 64; j++ {
+					regChan <- c9Wire(tr*64 + j)
+				}
+			}
+			wg := new(sync.WaitGroup)
+			wg.Add(1)
+			returned := make(chan struct{})
+			start := func() {
+				go rm.HandleRegUpdates(ctx, regChan, wg)
+				go func() { wg.Wait(); close(returned) }()
+			}
+			switch sc.Timing {
+			case "before":
+				cancel()
+				start()
+			case "after":
+				start()
+				cancel()
+			default:
+				start()
+				for j := 0; j < sc.Yields; j++ {
+					runtime.Gosched()
+				}
+				cancel()
+			}
+			select {
+			case <-returned:
+				out[i].Returned++
+				if a := c9CountWorkers(); a > out[i].MaxAlive {
+					out[i].MaxAlive = a
+				}
+			case <-time.After(4 * time.Second):
+				out[i].NotReturn++
+			}
+			cancel()
+			time.Sleep(15 * time.Millisecond) // a worker that starts late gets to run
+		}
+	}
+	time.Sleep(50 * time.Millisecond)
+	js, _ := json.Marshal(out)
+	fmt.Printf("\nC9DONE %s\n", js)
+}
+
+func c9RunStartup(c c9Case) (res c9Result) {
+	js, _ := json.Marshal(c.Startup)
+	cmd := exec.Command(os.Args[0], "-test.run=^TestVerifC09StartupChild$", "-test.count=1", "-test.timeout=120s")
+	cmd.Env = append(os.Environ(), "VERIF_C09_CHILD="+string(js))
+	outb, err := cmd.CombinedOutput()
+	out := string(outb)
+	res.ChildOK = err == nil
+	last := -1
+	for _, ln := range strings.Split(out, "\n") {
+		if strings.HasPrefix(ln, "C9SCENARIO ") {
+			fmt.Sscanf(ln, "C9SCENARIO %d", &last)
+		}
+		if strings.HasPrefix(ln, "C9DONE ") {
+			res.ChildDone = true
+			_ = json.Unmarshal([]byte(strings.TrimPrefix(ln, "C9DONE ")), &res.StartupRes)
+		}
+	}
+	res.ChildLast = last
+	if i := strings.Index(out, "panic:"); i >= 0 {
+		res.ChildPanic = out[i:]
+		if len(res.ChildPanic) > 1800 {
+			res.ChildPanic = res.ChildPanic[:1800]
+		}
+	} else if !res.ChildDone {
+		tail := out
+		if len(tail) > 1200 {
+			tail = tail[len(tail)-1200:]
+		}
+		res.Error = "child ended without a result: " + tail
+	}
+	return res
+}
+
 // ---------------------------------------------------------------- stress mode
 
 func c9RunStress(c c9Case) (res c9Result) {
@@ -1113,6 +1264,8 @@ func TestVerifC09(t *testing.T) {
 				res[i] = c9RunStress(c)
 			case "locktrace":
 				res[i] = c9RunLocktrace(c)
+			case "startup":
+				res[i] = c9RunStartup(c)
 			}
 		}()
 	}
